@@ -6,7 +6,7 @@ From VBase Require Import MachInt FieldOps ZpOps.
 From VModel Require Import Soundness PolynomExt.
 Extraction Language OCaml.
 Separate Extraction
-  verify_model deep_evaluations evaluate_constraints ood_equation_b fam_trans fam_aux_trans fam_step_trans query_xs
+  verify_model deep_evaluations evaluate_constraints ood_equation_b fam_trans fam_aux_trans lagfam_trans lagfam_aux_trans fam_step_trans query_xs
   valid_b upd_cell is_asserted only_exempt asserted_cells
   trans_divisor_eval bnd_divisor_eval peval fpow
   seed_of flat_avals ctx_words
